@@ -224,11 +224,16 @@ static void crash_note_case() {
     if (ftruncate(g_crash_fd, (off_t)g_current_case.size()) != 0) {}
 }
 static void crash_dump() {}
-static void crash_handler(int sig) {
+static void crash_handler(int sig, siginfo_t *si, void *) {
     crash_dump();
     const char m[] = "\nSKV-CRASH: signal while executing a case (case saved)\n";
     ssize_t w = write(2, m, sizeof m - 1);
-    (void)w; (void)sig;
+    uintptr_t a = si ? (uintptr_t)si->si_addr : 0;
+    if (sig == SIGSEGV && active_ro().hi && a >= active_ro().lo && a < active_ro().hi) {
+        const char m2[] = "SKV-CRASH: the library wrote to an object that this function takes as pointer-to-const (the object sat in a read-only page)\n";
+        w = write(2, m2, sizeof m2 - 1);
+    } else if (sig == SIGILL) { const char m3[] = "SKV-CRASH: illegal instruction\n"; w = write(2, m3, sizeof m3 - 1); }
+    (void)w;
     _exit(3);
 }
 static void sanitizer_death() { crash_dump(); }
@@ -277,8 +282,9 @@ static inline int skv_main(int argc, char **argv, Harness &h) {
     if (!g_fail_path.empty()) {
         snprintf(g_crash_path, sizeof g_crash_path, "%s.crash", g_fail_path.c_str());
         g_crash_fd = open(g_crash_path, O_WRONLY | O_CREAT | O_TRUNC, 0644);
-        signal(SIGSEGV, crash_handler); signal(SIGBUS, crash_handler); signal(SIGILL, crash_handler);
-        signal(SIGFPE, crash_handler); signal(SIGABRT, crash_handler);
+        struct sigaction sa; memset(&sa, 0, sizeof sa); sa.sa_sigaction = crash_handler; sa.sa_flags = SA_SIGINFO;
+        sigaction(SIGSEGV, &sa, nullptr); sigaction(SIGBUS, &sa, nullptr); sigaction(SIGILL, &sa, nullptr);
+        sigaction(SIGFPE, &sa, nullptr); sigaction(SIGABRT, &sa, nullptr);
         if (__sanitizer_set_death_callback) __sanitizer_set_death_callback(sanitizer_death);
     }
     if (kv.count("digest")) st.digest_file = fopen(kv["digest"].c_str(), "wb");
